@@ -9,6 +9,7 @@ import (
 	"go/ast"
 	"go/token"
 	"go/types"
+	"sort"
 	"strings"
 
 	"golang.org/x/tools/go/cfg"
@@ -1042,43 +1043,88 @@ func FreshSlaves(c *core.Ctx, rule string) {
 // connection with every error.
 
 func ConnUsedOnlyAfterErrCheck(c *core.Ctx, rule string) {
-	fn := c.Func("redis-shake/dbSync/slotsupervisor", "slotSupervisor", "getRedisNodeState")
-	if fn == nil {
+	anchor := c.Func("redis-shake/dbSync/slotsupervisor", "slotSupervisor", "getRedisNodeState")
+	if anchor == nil {
 		return
 	}
-	info := fn.Pkg.TypesInfo
-	g := cfgq.Of(c.Program, fn)
-	as, b := pat.Stmt("_conn, _err = _s.redisConnFactory(_a, _b, _c)").Find(info, fn.Decl.Body, nil)
-	if as == nil {
-		c.Undecidedf(rule, "getRedisNodeState/factory", fn.Decl.Pos(), "factory call not recognised")
-		return
+	pk := anchor.Pkg
+	info := pk.TypesInfo
+	// every call of the connection factory (a func-typed field or variable whose
+	// results are (redigo.Conn, error)) in the package, wherever a refactoring put it
+	type site struct {
+		fn   *core.Fn
+		as   *ast.AssignStmt
+		conn types.Object
+		err  types.Object
 	}
-	connObj := core.ObjOf(info, b["_conn"].(ast.Expr))
-	n := 0
-	for _, p := range g.Points(func(nd ast.Node) bool {
-		if nd == ast.Node(as) {
-			return false
+	var sites []site
+	for _, fn := range c.FuncsOf(pk) {
+		if fn.Decl == nil || fn.Decl.Body == nil {
+			continue
 		}
-		used := false
-		ast.Inspect(nd, func(m ast.Node) bool {
-			if sel, ok := m.(*ast.SelectorExpr); ok {
-				if id, ok := sel.X.(*ast.Ident); ok && core.ObjOf(info, id) == connObj {
-					used = true
-				}
+		core.Inspect(fn.Decl.Body, func(n ast.Node) bool {
+			as, ok := n.(*ast.AssignStmt)
+			if !ok || len(as.Lhs) != 2 || len(as.Rhs) != 1 {
+				return true
 			}
+			call, ok := ast.Unparen(as.Rhs[0]).(*ast.CallExpr)
+			if !ok {
+				return true
+			}
+			sel, ok := ast.Unparen(call.Fun).(*ast.SelectorExpr)
+			if !ok || sel.Sel.Name != "redisConnFactory" {
+				return true
+			}
+			sites = append(sites, site{fn, as, core.ObjOf(info, as.Lhs[0]), core.ObjOf(info, as.Lhs[1])})
 			return true
 		})
-		return used
-	}) {
-		n++
-		ok, w := g.OnlyViaFact(p, func(f cfgq.Fact) bool {
-			return pat.Expr("_err != nil").Match(info, f.Expr, b) != nil && !f.Val || pat.Expr("_err == nil").Match(info, f.Expr, b) != nil && f.Val
-		})
-		c.Check(rule, fmt.Sprintf("getRedisNodeState/conn-use#%d", n), p.Node().Pos(), ok,
-			fmt.Sprintf("`%s` uses the connection before the factory's error was found nil: for an unreachable node the factory returns (nil, err) and the call panics, although unreachable nodes must be tolerated and listed as replicas", c.Src(p.Node())), w...)
+	}
+	if len(sites) == 0 {
+		c.Undecidedf(rule, "getRedisNodeState/factory", anchor.Decl.Pos(), "no call of the connection factory found in the package")
+		return
+	}
+	n := 0
+	for _, st := range sites {
+		if st.conn == nil || st.err == nil {
+			c.Undecidedf(rule, "getRedisNodeState/factory", st.as.Pos(), "the factory's results are not both bound to variables")
+			continue
+		}
+		g := cfgq.Of(c.Program, st.fn)
+		errNil := func(f cfgq.Fact) bool {
+			be, ok := ast.Unparen(f.Expr).(*ast.BinaryExpr)
+			if !ok || (be.Op != token.EQL && be.Op != token.NEQ) {
+				return false
+			}
+			for _, pr := range [][2]ast.Expr{{be.X, be.Y}, {be.Y, be.X}} {
+				if core.IsNil(info, pr[1]) && core.ObjOf(info, pr[0]) == st.err {
+					return (be.Op == token.EQL) == f.Val
+				}
+			}
+			return false
+		}
+		for _, p := range g.Points(func(nd ast.Node) bool {
+			if nd == ast.Node(st.as) {
+				return false
+			}
+			used := false
+			ast.Inspect(nd, func(m ast.Node) bool {
+				if sel, ok := m.(*ast.SelectorExpr); ok {
+					if id, ok := sel.X.(*ast.Ident); ok && core.ObjOf(info, id) == st.conn {
+						used = true
+					}
+				}
+				return true
+			})
+			return used
+		}) {
+			n++
+			ok, w := g.OnlyViaFact(p, errNil)
+			c.Check(rule, fmt.Sprintf("getRedisNodeState/conn-use#%d", n), p.Node().Pos(), ok,
+				fmt.Sprintf("`%s` uses the connection before the factory's error was found nil: for an unreachable node the factory returns (nil, err) and the call panics, although unreachable nodes must be tolerated and listed as replicas", c.Src(p.Node())), w...)
+		}
 	}
 	if n == 0 {
-		c.Undecidedf(rule, "getRedisNodeState/conn-use", fn.Decl.Pos(), "the connection is never used")
+		c.Undecidedf(rule, "getRedisNodeState/conn-use", anchor.Decl.Pos(), "the connection is never used")
 	}
 }
 
@@ -1109,28 +1155,82 @@ func VerdictFresh(c *core.Ctx, rule string) {
 		c.Undecidedf(rule, "parseSourceCommand/iteration", fn.Decl.Pos(), "iteration start (MustDecodeOpt) not recognised")
 		return
 	}
-	isAssign := func(nd ast.Node) bool {
-		a, ok := nd.(*ast.AssignStmt)
-		if !ok {
-			return false
-		}
-		for _, l := range a.Lhs {
-			if id, ok := l.(*ast.Ident); ok && core.ObjOf(info, id) == rej {
+	// the verdict and the locals computed from it (`keep := !reject`), transitively
+	derived := map[types.Object]bool{rej: true}
+	for changed := true; changed; {
+		changed = false
+		core.Inspect(fn.Decl.Body, func(nd ast.Node) bool {
+			a, ok := nd.(*ast.AssignStmt)
+			if !ok || len(a.Lhs) != len(a.Rhs) {
 				return true
 			}
+			for i, l := range a.Lhs {
+				id, ok := l.(*ast.Ident)
+				if !ok {
+					continue
+				}
+				lo := core.ObjOf(info, id)
+				if lo == nil || derived[lo] {
+					continue
+				}
+				for o := range derived {
+					if core.Mentions(info, a.Rhs[i], o) {
+						if v, isVar := lo.(*types.Var); isVar && !v.IsField() {
+							derived[lo] = true
+							changed = true
+						}
+						break
+					}
+				}
+			}
+			return true
+		})
+	}
+	assigns := func(o types.Object) func(nd ast.Node) bool {
+		return func(nd ast.Node) bool {
+			a, ok := nd.(*ast.AssignStmt)
+			if !ok {
+				return false
+			}
+			for _, l := range a.Lhs {
+				if id, ok := l.(*ast.Ident); ok && core.ObjOf(info, id) == o {
+					return true
+				}
+			}
+			return false
 		}
-		return false
 	}
 	n := 0
-	for _, p := range g.Points(func(nd ast.Node) bool {
-		e, ok := nd.(ast.Expr)
-		return ok && core.Mentions(info, e, rej)
-	}) {
-		n++
-		tn := p.Node()
-		w := g.Path(cfgq.Query{From: starts[0], After: true, Target: func(nd ast.Node) bool { return nd == tn }, Avoid: isAssign})
-		c.Check(rule, fmt.Sprintf("parseSourceCommand/verdict-fresh#%d", n), tn.Pos(), w == nil,
-			"the key-filter verdict is tested on a path on which it was not computed for the current command: the previous command's verdict decides, so e.g. an EXEC or FLUSHALL that follows a filtered command is dropped", w...)
+	var objs []types.Object
+	for o := range derived {
+		objs = append(objs, o)
+	}
+	sort.Slice(objs, func(i, j int) bool { return objs[i].Pos() < objs[j].Pos() })
+	for _, o := range objs {
+		isAssign := assigns(o)
+		for _, p := range g.Points(func(nd ast.Node) bool {
+			switch x := nd.(type) {
+			case ast.Expr:
+				return core.Mentions(info, x, o)
+			case *ast.AssignStmt:
+				// a local computed from the verdict reads it
+				if isAssign(nd) {
+					return false
+				}
+				for _, r := range x.Rhs {
+					if core.Mentions(info, r, o) {
+						return true
+					}
+				}
+			}
+			return false
+		}) {
+			n++
+			tn := p.Node()
+			w := g.Path(cfgq.Query{From: starts[0], After: true, Target: func(nd ast.Node) bool { return nd == tn }, Avoid: isAssign})
+			c.Check(rule, fmt.Sprintf("parseSourceCommand/verdict-fresh#%d", n), tn.Pos(), w == nil,
+				"the key-filter verdict is tested on a path on which it was not computed for the current command: the previous command's verdict decides, so e.g. an EXEC or FLUSHALL that follows a filtered command is dropped", w...)
+		}
 	}
 	if n == 0 {
 		c.Undecidedf(rule, "parseSourceCommand/verdict-use", fn.Decl.Pos(), "the verdict is never tested")
